@@ -195,6 +195,13 @@ func (s *UDPSock) SetReadDeadline(t time.Time) error {
 }
 func (s *UDPSock) SetWriteDeadline(t time.Time) error { return nil }
 
+// SetBlackhole switches a path's blackholing on or off while a run is going on.
+func (n *UDPNet) SetBlackhole(p *UDPPath, on bool) {
+	n.mu.Lock()
+	p.Blackhole = on
+	n.mu.Unlock()
+}
+
 // PathOf returns the path whose NAT source or alias equals addr (nil if none).
 func (n *UDPNet) PathOf(addr net.Addr) *UDPPath {
 	n.mu.Lock()
